@@ -88,7 +88,9 @@ def run_history(kind, rng, nops, fail_at, out, script=None):
         return keys[k]
 
     if script is None:
-        script = {'init': [], 'populate_at_ctor': rng.random() < 0.5, 'step': pick(rng, [1, 2, 3, 1000]), 'ops': []}
+        script = {'init': [], 'populate_at_ctor': rng.random() < 0.5, 'step': pick(rng, [1, 2, 3, 1000]), 'ops': [],
+                  'pre': [pick(rng, [('get', pick(rng, UIDS)), ('get', 'no-such-uid'), ('all', 2, 0), ('retr', 2)])
+                          for _ in range(rng.randint(1, 3))] if rng.random() < 0.4 else []}
         tag = 0
         for u in rng.sample(UIDS, rng.randint(0, 3)):
             tag += 1
@@ -124,14 +126,42 @@ def run_history(kind, rng, nops, fail_at, out, script=None):
     ec = EnfoldCache(spy, cache=cache, populate=False)
     ec.populate_step_size = script['step']
     mops = ['pop %d' % script['step']]
-    ec.populate()
+    problems = []
+    human = ['init=%s' % [u for u, _ in script['init']]]
+    # reads through the not yet populated cache (the documented populate=False mode): answered like the backend alone,
+    # and they must not get in the way of the population that follows
+    for op in script.get('pre', []):
+        human.append('before populate: %s%r' % (op[0], op[1:]))
+        try:
+            if op[0] == 'get':
+                p, pb = ec.get(op[1]), backend.get(op[1])
+                if (p is None) != (pb is None) or (p is not None and polcase.policy_key(p) != polcase.policy_key(pb)):
+                    problems.append('get(%r) through the unpopulated cache differs from the backend' % (op[1],))
+            elif op[0] == 'all':
+                got = sorted(repr(polcase.policy_key(p)) for p in capped(ec.get_all(op[1], op[2])))
+                want = sorted(repr(polcase.policy_key(p)) for p in capped(backend.get_all(op[1], op[2])))
+                if got != want:
+                    problems.append('get_all through the unpopulated cache differs from the backend')
+            else:
+                got = sorted(repr(polcase.policy_key(p)) for p in capped(ec.retrieve_all(op[1])))
+                want = sorted(repr(polcase.policy_key(p)) for p in capped(backend.retrieve_all(op[1])))
+                if got != want:
+                    problems.append('retrieve_all through the unpopulated cache differs from the backend')
+        except Exception as e:
+            problems.append('%s%r through the unpopulated cache raised %s' % (op[0], op[1:], type(e).__name__))
+    try:
+        ec.populate()
+    except Exception as e:
+        problems.append('populate() raised %s: %s' % (type(e).__name__, str(e)[:120]))
+    if not problems and dump(backend, pid_of) != dump(cache, pid_of):
+        problems.append('after populate() the cache store %s differs from the backend %s'
+                        % (dump(cache, pid_of), dump(backend, pid_of)))
     spy.calls = 0
     outs = ['done T']
-    human = ['init=%s' % [u for u, _ in script['init']], 'populate(step=%s)' % script['step']]
+    human.append('populate(step=%s)' % script['step'])
     spy.fail_at = fail_at
     spy.mut_calls = 0
-    problems = []
-    for op in script['ops']:
+    for op in (script['ops'] if not problems else []):
         before = spy.calls
         b_dump0, c_dump0 = dump(backend, pid_of), dump(cache, pid_of)
         injected = False
